@@ -16,7 +16,7 @@ from ..core import Run
 from ..pool import run_ops
 from ..tlc import read_export, run_tlc, validate_traces
 
-ALL = set(range(1, 66))
+ALL = set(range(1, 76))
 TIERS = {
     "quick": [dict(MaxItems=1, ItemUse=ALL, PrefixUse={1, 2, 3, 4, 5, 6, 7, 8}, QuoteUse={1, 2, 3, 4}, Concat=True),
               dict(MaxItems=2, ItemUse=ALL, PrefixUse={1}, QuoteUse={2, 3}, Concat=False),
@@ -112,10 +112,13 @@ def evaluate(run: Run, cases: list[dict], tag: str, count: bool) -> dict[int, li
         atraces.append({"id": i, "aok": a["impl_ok"], "bok": True, "a": a.get("a", []), "b": a.get("b", []), "pos": True, "want": [], "spans": []})
     for i, (clause, k) in sorted(validate_traces(run, "TokAgree", ttraces, name="ftok" + tag).items()):
         if clause != "ok":
-            bad.setdefault(i, []).append(("tokens:" + clause, {"token": k, "diff": res[i]["tok"].get("diff")}))
+            bad.setdefault(i, []).append(("tokens:" + clause, {"token": k, "diff": res[i]["tok"].get("diff"),
+                                                               "split_only": bool(res[i]["tok"].get("merged_equal")), "noempty_equal": bool(res[i]["tok"].get("noempty_equal")),
+                                                               "both_equal": bool(res[i]["tok"].get("both_equal"))}))
     for i, (clause, k) in sorted(validate_traces(run, "AstEq", atraces, name="ftree" + tag).items()):
         if clause != "ok":
-            bad.setdefault(i, []).append(("tree:" + clause, {"row": k, "diff": res[i]["tree"].get("diff"), "impl_exc": res[i]["tree"].get("impl_exc")}))
+            bad.setdefault(i, []).append(("tree:" + clause, {"row": k, "diff": res[i]["tree"].get("diff"), "impl_exc": res[i]["tree"].get("impl_exc"),
+                                                             "nospecempty_equal": bool(res[i]["tree"].get("nospecempty_equal"))}))
     return bad
 
 
@@ -136,8 +139,43 @@ def check(run: Run) -> None:
     rcases = [{"src": r, "origin": "reduced", "items": []} for r in reduced]
     rbad = evaluate(run, rcases, "_reduced", False) if rcases else {}
     rfail = {rcases[j]["src"] for j in rbad}
+    SPLIT, EMPTY = "K-C10-named-escape-token-split", "K-C10-empty-parts-in-spec"
+    import re
+
+    def quirks(items, src):
+        """the findings that explain every recorded difference as a cut / an empty part CPython produces and this tokenizer does
+        not (the streams and trees are equal once those are set aside), or None"""
+        ids = set()
+        named = "\\N{" in src
+        cont = bool(re.search(r"\\N\{[^{}]*\}\\\r?\n", src))
+        for cl, d in items:
+            d = d or {}
+            if cl.startswith("tokens:") and d.get("split_only") and named:
+                ids.add(SPLIT)
+            elif cl.startswith("tokens:") and d.get("noempty_equal"):
+                ids.add(EMPTY)
+            elif cl.startswith("tokens:") and d.get("both_equal") and named:
+                ids |= {SPLIT, EMPTY}
+            elif cl.startswith("tree:") and d.get("nospecempty_equal"):
+                ids.add(EMPTY)
+            elif cl == "tree:span" and cont and named:
+                ids.add(SPLIT)
+            else:
+                return None
+        return ids if ids and ids <= known else None
+
+    rquirk = {rcases[j]["src"]: quirks(items, rcases[j]["src"]) for j, items in rbad.items()}
     for i, items in sorted(bad.items()):
         c = cases[i]
+        q = quirks(items, c["src"])
+        if q:
+            for fid in q:
+                run.known_hits[fid] = run.known_hits.get(fid, 0) + 1
+            continue
+        if i in plan and rquirk.get(plan[i][0]):          # a listed feature removed, what remains is such a quirk only
+            for fid in set(plan[i][1]) | rquirk[plan[i][0]]:
+                run.known_hits[fid] = run.known_hits.get(fid, 0) + 1
+            continue
         if i in plan and plan[i][0] not in rfail:
             for fid in plan[i][1]:
                 run.known_hits[fid] = run.known_hits.get(fid, 0) + 1
